@@ -51,6 +51,7 @@ FIELDS = {
     "expressions": "ref", "trailing": "ref", "contains_error": "bool", "source_path": "ref", "node": "ref",
     "text": "str", "inline": "bool", "path": "str", "scopes": "ref", "default_value": "ref",
     "target": "ref", "context": "ref", "raw_string": "bool",
+    "t0": "ref", "t1": "ref", "t2": "ref",  # components of boxed tuples of references (stack entries, registry entries)
 }
 
 # fields whose value is always a (non-None) list object of the given class
